@@ -366,10 +366,13 @@ def tracking_histories(draw, tier="quick"):
             lab = g["label"] if g["label"] != "false_positive" else targets[0]
             if ev == "label":
                 lab = draw(st.sampled_from(targets + ["unknown"]))
-            ests.append({"p": [g["p"][0] + r * math.cos(ang), g["p"][1] + r * math.sin(ang), g["p"][2]], "yaw": g["yaw"], "qs": 1, "size": list(g["size"]), "label": lab, "score": draw(GEN.fl(0.05, 0.95)), "trk": k})
+            dyaw = draw(st.sampled_from([0.0, 0.0, 0.2, -0.5, 1.5]))
+            ests.append({"p": [g["p"][0] + r * math.cos(ang), g["p"][1] + r * math.sin(ang), g["p"][2]], "yaw": math.atan2(math.sin(g["yaw"] + dyaw), math.cos(g["yaw"] + dyaw)) if dyaw else g["yaw"], "qs": draw(st.sampled_from([1, -1])), "size": list(g["size"]), "label": lab, "score": draw(GEN.fl(0.05, 0.95)), "trk": k})
         for e in ests:
             e["uuid"] = tracks[e.pop("trk")]
-        for _ in range(draw(st.integers(0, 2))):
+        if 0 < t < n_frames - 1 and draw(st.integers(0, 4)) == 0:
+            ests = []  # a frame in which the tracker reports nothing at all (gap in every label's history)
+        for _ in range(draw(st.integers(0, 2)) if ests or t == 0 or draw(st.booleans()) else 0):
             ests.append({"p": [draw(GEN.fl(-30, 30)), draw(GEN.fl(-30, 30)), 0.0], "yaw": 0.0, "qs": 1, "size": [2.0, 4.0, 1.5], "label": draw(st.sampled_from(targets)), "score": draw(GEN.fl(0.05, 0.95)), "uuid": f"t{next_id}"})
             next_id += 1
         crit = f0["crit"]
